@@ -58,6 +58,7 @@ type checkCfg struct {
 	Shards        int               `json:"shards"`
 	Rule          string            `json:"rule"`
 	Assumptions   []string          `json:"assumptions"`
+	BuildPkg      string            `json:"build_pkg"` // build this repo package (its in-package harness has an init hook) instead of internal/zzverif/<main>
 	TestPkg       string            `json:"test_pkg"` // build with `go test -c` in this repo package instead of a main package
 	Race          *raceCfg          `json:"race"`
 	Env           map[string]string `json:"env"`
@@ -175,7 +176,7 @@ func main() {
 		}
 		return nil
 	})
-	if cfg.TestPkg == "" {
+	if cfg.TestPkg == "" && cfg.BuildPkg == "" {
 		addDir(checkDir, filepath.Join(repoDir, "internal/zzverif", cfg.Main))
 	}
 	for _, x := range cfg.ExtraHarness {
@@ -204,6 +205,8 @@ func main() {
 	var cmd *exec.Cmd
 	if cfg.TestPkg != "" {
 		cmd = exec.Command("go", "test", "-c", "-vet=off", "-overlay", ovPath, "-tags", "verif", "-o", bin, "./"+cfg.TestPkg)
+	} else if cfg.BuildPkg != "" {
+		cmd = exec.Command("go", "build", "-overlay", ovPath, "-tags", "verif", "-o", bin, cfg.BuildPkg)
 	} else {
 		cmd = exec.Command("go", "build", "-overlay", ovPath, "-tags", "verif", "-o", bin, "./internal/zzverif/"+cfg.Main)
 	}
